@@ -672,4 +672,221 @@ theorem sim_opBop {w : World} (hw : w.Good) (a : Args) : Sim (HS.opBop w.norm a)
         sim_walk
 
 
+/-! ### file operations -/
+
+/-- the kind the reader recovers from the named file is boolean (bit-packed or ordinary) -/
+def fileBool (w : World) (n : String) : Bool :=
+  match (w.files.find? (·.1 == n)).map (·.2) with
+  | some fo => (match fileKind fo with | some k => k.isBool | none => false)
+  | none => false
+
+theorem FileObj.not_bitpack_of_kind {f : FileObj} (h : (match fileKind f with | some k => k.isBool | none => false) = false) :
+    f.bitpack = false := by
+  cases hb : f.bitpack with
+  | false => rfl
+  | true =>
+    have : fileKind f = some .packed := by unfold fileKind; simp [hb]
+    rw [this] at h
+    cases h
+
+theorem sim_opRead {w : World} (hw : w.Good) (a : Args) : Sim (HS.opRead w.norm a) (HS.opRead w a) := by
+  unfold HS.opRead
+  simp only [World.files_find_norm]
+  try dsimp +instances only [World.norm_metas]
+  cases hf : (w.files.find? (·.1 == a.getD "f" "f")).map (·.2) with
+  | none => simp only [Option.map_none]; exact sim_same w _
+  | some fo =>
+    have hfo := hw.file_find hf
+    simp only [Option.map_some, apiRead_norm hfo.2, FileObj.norm_mdata]
+    sim_walk
+
+theorem sim_opCovread {w : World} (a : Args) : Sim (HS.opCovread w.norm a) (HS.opCovread w a) := by
+  unfold HS.opCovread
+  simp only [World.files_find_norm]
+  cases hf : (w.files.find? (·.1 == a.getD "f" "f")).map (·.2) with
+  | none => simp only [Option.map_none]; exact sim_same w _
+  | some fo =>
+    simp only [Option.map_some, FileObj.norm_covord, FileObj.norm_spord, FileObj.norm_file]
+    exact sim_same w _
+
+theorem sim_opFitsraw {w : World} (hw : w.Good) (a : Args) : Sim (HS.opFitsraw w.norm a) (HS.opFitsraw w a) := by
+  unfold HS.opFitsraw
+  simp only [World.files_find_norm]
+  cases hf : (w.files.find? (·.1 == a.getD "f" "f")).map (·.2) with
+  | none => simp only [Option.map_none]; sim_walk0
+  | some fo =>
+    have hfo := hw.file_find hf
+    simp only [Option.map_some]
+    rcases fo.bitpack_cases hfo.2 with hb | ⟨co, so, ar, p, fs, ww, md, fl, rfl⟩
+    · simp +instances only [FileObj.norm_of_not_bitpack hb]
+      sim_walk0
+    · have e : ("i2" == "rec") = false := by decide
+      cases hc : parseInts (a.getD "cov" "_") <;> cases hs : parseVals (a.getD "sp" "_") <;>
+        simp +instances only [FileObj.norm, fileKind, ↓reduceIte, e, Bool.false_eq_true] <;>
+        exact sim_same w _
+
+theorem sim_opDor {w : World} (hw : w.Good) (a : Args)
+    (hex : (fileBool w (a.getD "f" "f") ||
+      (match a.get? "wf" with | some n => fileBool w n | none => false)) = false) :
+    Sim (HS.opDor w.norm a) (HS.opDor w a) := by
+  have hex1 : fileBool w (a.getD "f" "f") = false := by
+    cases h : fileBool w (a.getD "f" "f") with
+    | false => rfl
+    | true => rw [h] at hex; simp at hex
+  have hex2 : (match a.get? "wf" with | some n => fileBool w n | none => false) = false := by
+    rw [hex1] at hex; simpa using hex
+  unfold HS.opDor
+  dsimp +instances only [World.norm_hpfiles, World.norm_metas]
+  simp only [World.files_find_norm]
+  split
+  · sim_walk0
+  · cases hf : (w.files.find? (·.1 == a.getD "f" "f")).map (·.2) with
+    | none => simp only [Option.map_none]; sim_walk0
+    | some fo =>
+      have hb : fo.bitpack = false := by
+        apply FileObj.not_bitpack_of_kind
+        unfold fileBool at hex1
+        simp only [hf] at hex1
+        exact hex1
+      simp +instances only [Option.map_some, FileObj.norm_of_not_bitpack hb]
+      cases hwf : a.get? "wf" with
+      | none => simp only []; sim_walk0
+      | some n' =>
+        simp only []
+        cases hf2 : (w.files.find? (·.1 == n')).map (·.2) with
+        | none => simp only [Option.map_none]; sim_walk0
+        | some wfo =>
+          have hb2 : wfo.bitpack = false := by
+            apply FileObj.not_bitpack_of_kind
+            rw [hwf] at hex2
+            unfold fileBool at hex2
+            simp only [hf2] at hex2
+            exact hex2
+          simp +instances only [Option.map_some, FileObj.norm_of_not_bitpack hb2]
+          sim_walk0
+
+theorem mapM_option_map {α β γ : Type} (g : α → Option β) (f : β → γ) (l : List α) :
+    l.mapM (fun a => (g a).map f) = (l.mapM g).map (List.map f) := by
+  induction l with
+  | nil => rfl
+  | cons a as ih =>
+    simp only [List.mapM_cons, ih]
+    cases g a with
+    | none => rfl
+    | some b => cases as.mapM g <;> rfl
+
+theorem mapM_files_norm (w : World) (names : List String) :
+    names.mapM (fun n => (w.norm.files.find? (·.1 == n)).map (·.2)) =
+      (names.mapM (fun n => (w.files.find? (·.1 == n)).map (·.2))).map (List.map FileObj.norm) := by
+  simp only [World.files_find_norm]
+  exact mapM_option_map _ _ _
+
+theorem apiWrite_norm (m : MapObj) (md : List (String × String)) :
+    apiWrite m.norm md = (apiWrite m md).norm := by
+  by_cases hp : m.kind = .packed
+  · obtain ⟨co, so, k, s, st, c, v⟩ := m
+    simp only at hp
+    subst hp
+    rfl
+  · rw [MapObj.norm_of_ne hp]
+    have : (apiWrite m md).bitpack = false := by
+      unfold apiWrite
+      cases hk : m.kind with
+      | packed => exact absurd hk hp
+      | plain dt => cases dt <;> rfl
+      | wide n => rfl
+      | recd fs pr => rfl
+    rw [FileObj.norm_of_not_bitpack this]
+
+theorem fileKind_packed {f : FileObj} (h : fileKind f = some .packed) : f.bitpack = true := by
+  cases hb : f.bitpack with
+  | true => rfl
+  | false =>
+    exfalso
+    unfold fileKind at h
+    simp only [hb, Bool.false_eq_true, if_false] at h
+    split at h
+    · cases hp : f.primary <;> rw [hp] at h <;> cases h
+    · split at h
+      · cases h
+      · split at h
+        · cases h
+        · cases hd : parseDTCode f.arrDT <;> rw [hd] at h <;> cases h
+
+theorem apiWrite_bitpack {m : MapObj} (md : List (String × String)) (hp : m.kind ≠ .packed) :
+    (apiWrite m md).bitpack = false := by
+  unfold apiWrite
+  cases hk : m.kind with
+  | packed => exact absurd hk hp
+  | plain dt => cases dt <;> rfl
+  | wide n => rfl
+  | recd fs pr => rfl
+
+/-- `apiCat` looks at the files after the first only through their orders and arrays -/
+theorem apiCat_rest_norm (f0 : FileObj) (rest : List FileObj) (co : Option Nat) (ck oo : Bool) :
+    apiCat (f0 :: rest.map FileObj.norm) co ck oo = apiCat (f0 :: rest) co ck oo := by
+  have hany : ∀ s, (rest.map FileObj.norm).any (fun f => f.spord != s) = rest.any (fun f => f.spord != s) := by
+    intro s; simp [List.any_map, Function.comp_def]
+  have hmap : (rest.map FileObj.norm).map (fun f => (⟨cfgOf f.covord f.spord, f.file⟩ : CatIn Val)) =
+      rest.map (fun f => ⟨cfgOf f.covord f.spord, f.file⟩) := by
+    simp [List.map_map, Function.comp_def]
+  unfold apiCat
+  simp only [List.map_cons, List.any_cons, hany, hmap]
+
+theorem apiCat_norm {fs : List FileObj} (hall : ∀ f ∈ fs, f.KindOk) (co : Option Nat) (ck oo : Bool) :
+    apiCat (fs.map FileObj.norm) co ck oo = FileObj.norm <$> apiCat fs co ck oo := by
+  cases fs with
+  | nil =>
+    unfold apiCat
+    simp only [List.map_nil, bind, Except.bind, pure, Except.pure, throw, throwThe, MonadExceptOf.throw]
+    split <;> rfl
+  | cons f0 rest =>
+    rw [List.map_cons, apiCat_rest_norm]
+    rcases f0.bitpack_cases (hall f0 (List.mem_cons_self ..)) with hb | ⟨c0, s0, ar, p, fs', ww, md, fl, rfl⟩
+    · rw [FileObj.norm_of_not_bitpack hb]
+      cases h : apiCat (f0 :: rest) co ck oo with
+      | error e => rfl
+      | ok fo =>
+        obtain ⟨f0', rest', kind, st, hfs, _, hk, _, _, rfl⟩ := apiCat_ok h
+        cases hfs
+        have hkp : kind ≠ .packed := by
+          intro hkk; rw [hkk] at hk
+          rw [fileKind_packed hk] at hb; cases hb
+        show Except.ok _ = Except.ok (FileObj.norm _)
+        rw [FileObj.norm_of_not_bitpack (apiWrite_bitpack [] hkp)]
+    · have e : ("i2" == "rec") = false := by decide
+      unfold apiCat
+      simp only [FileObj.norm, fileKind, bind, Except.bind, pure, Except.pure, throw, throwThe,
+        MonadExceptOf.throw, ↓reduceIte, e, Bool.false_eq_true, List.map_cons, List.any_cons]
+      simp only [map_ite_E, map_error_E]
+      split
+      · rfl
+      · split
+        · rfl
+        · split
+          · rfl
+          · split <;> split
+            · rfl
+            · rename_i h1 _ _ h2
+              exact absurd (h1.symm.trans h2) (by simp)
+            · rename_i _ h1 _ h2
+              exact absurd (h1.symm.trans h2) (by simp)
+            · rename_i _ h1 _ _ h2
+              have := Option.some.inj (h1.symm.trans h2)
+              subst this
+              rfl
+theorem sim_opCat {w : World} (hw : w.Good) (a : Args) : Sim (HS.opCat w.norm a) (HS.opCat w a) := by
+  unfold HS.opCat
+  simp only [mapM_files_norm]
+  cases hfs : (splitList (a.getD "files" "_")).mapM (fun n => (w.files.find? (·.1 == n)).map (·.2)) with
+  | none => simp only [Option.map_none]; exact sim_same w _
+  | some fs =>
+    have hall : ∀ f ∈ fs, f.KindOk := fun f hf => by
+      obtain ⟨n, _, hn⟩ := mem_of_mapM_some _ _ _ hfs f hf
+      exact (hw.file_find hn).2
+    simp only [Option.map_some, apiCat_norm hall]
+    cases hc : apiCat fs (a.nat? "covord") (a.flag "check") (a.flag "or") with
+    | error e => simp only [map_error_E]; exact sim_same w _
+    | ok fo => simp only [map_ok_E]; exact sim_files w _ _ (FileObj.norm_norm _)
+
 end HS
